@@ -328,3 +328,42 @@ def rule_range_stop(pid):
                           "%s reads a rank range (line %d) on a path with no comparison of the start index against the length: a start beyond the last element must give the empty range in both directions (ZREVRANGE z 7 10 on three members answers the lowest one)" % (fn.split("::")[-1], b.bb_line(i)), b.loc(i))
         R.floor("index_range_methods", n)
     return rule
+
+
+# ---- R-HASH-LASTWINS ----------------------------------------------------------------------------------
+def rule_hash_lastwins(ctx, R):
+    """`hashes hold unique fields` with the LAST value given: where HSET / HMSET fill a field map
+    through the entry API, an occupied entry is overwritten too (OccupiedEntry::insert, a store
+    through or_insert's result, and_modify) -- a vacant-only insertion keeps the first of two
+    values named for one field in one command."""
+    reach = rules_cmd.arms_reach(ctx, ("HSET", "HMSET"))
+    FM = r"std::collections::hash_map::(VacantEntry|Entry)::<('_, )?std::vec::Vec<u8>, std::vec::Vec<u8>(, [^>]*)?>::"
+    n = 0
+    for fn in sorted(reach):
+        b = ctx.prog.bodies.get(fn)
+        if b is None or not fn.startswith("storage::engine::") or "::tests::" in fn or b.kind == "Closure":
+            continue
+        plain = [i for i, t in b.calls() if re.search(r"^std::collections::HashMap::<std::vec::Vec<u8>, std::vec::Vec<u8>>::insert$", t["f"] or "") and not b.bbs[i]["cleanup"]]
+        vac = [i for i, t in b.calls() if re.search(FM + r"(insert|insert_entry|or_insert|or_insert_with|or_default)(::<.*>)?$", t["f"] or "") and not b.bbs[i]["cleanup"]]
+        if not plain and not vac:
+            continue
+        n += 1
+        loops = cfg.loops(b)
+        for i in vac:
+            scope = set(range(len(b.bbs)))
+            inl = [body for h, body in loops.items() if i in body]
+            if inl:
+                scope = min(inl, key=len)
+            over = False
+            for x in scope:
+                t = b.term(x)
+                if t["k"] == "call" and re.search(r"hash_map::OccupiedEntry::<('_, )?std::vec::Vec<u8>, std::vec::Vec<u8>(, [^>]*)?>::(insert|get_mut|into_mut)$|hash_map::Entry::<('_, )?std::vec::Vec<u8>, std::vec::Vec<u8>(, [^>]*)?>::and_modify", t["f"] or ""):
+                    over = True
+                for st in b.bbs[x]["s"]:
+                    if st["k"] == "=" and "*" in st["l"]["p"] and prov.origins(b, st["l"]["l"]).has_call(FM + r"(or_insert|or_insert_with|or_default)"):
+                        over = True
+            R.inst(fn, "field-insert:entry-api", {"function": fn, "at": b.loc(i), "occupied_entry_overwritten_too": over})
+            if not over:
+                R.finding(fn, "field-insert:vacant-only",
+                          "%s stores a field through the entry API only when the entry is vacant (line %d): a later occurrence of the same field in one HSET / HMSET is dropped, so the first value wins where the last one must" % (fn.split("::")[-1], b.bb_line(i)), b.loc(i))
+    R.floor("field_map_writers", n)
